@@ -195,6 +195,7 @@ def run_case(case):
         if v and first[0] is None:
             first[0] = list(out.choices)
         viol.extend(v)
+        return bool(v)
     # the scripted peers block for 60 virtual seconds at most: horizon must exceed that
     # with two associations the free (non-preempting) switches alone explode: bound all deviations there
     stats = e3.explore(sc, case['bound'], on, max_exec=8000, count_all=(case['scenario'] == 'never-closes-while-another-association-runs'))
